@@ -337,7 +337,7 @@ static void xtree(bool cond, const XNode& root, bool compact, int via = 0) {
         Xml::Document d2;
         if (via == 0) { String text; doc.writeToString(text, compact); d2.readFromString(text); }
         else {
-            int rc = std::system("mkdir -p /tmp/agent-C32"); (void)rc;
+            static bool made = false; if (!made) { int rc = std::system("mkdir -p /tmp/agent-C32"); (void)rc; made = true; }
             std::string path = "/tmp/agent-C32/x" + std::to_string((long)getpid()) + "_" + std::to_string(fileCounter++ % 4) + ".xml";
             doc.writeToFile(path); d2.readFromFile(path); std::remove(path.c_str());
         }
